@@ -33,6 +33,7 @@ type c11X struct {
 	types  map[string]*c11T
 	kfiles []*ast.File // keeper package + abci.go
 	opaque map[string]bool
+	skip   map[string]bool // claim methods not followed by walk (besides ClaimHash)
 }
 
 func kindOfType(c *Ctx, e ast.Expr) string {
@@ -203,7 +204,7 @@ func (x *c11X) walk(n ast.Node, vars map[string]bool, t *c11T, out map[string]bo
 			// method of the claim
 			if se, ok := e.Fun.(*ast.SelectorExpr); ok && isIdent(se.X, vars) {
 				if _, isField := t.kind[se.Sel.Name]; !isField {
-					if se.Sel.Name != "ClaimHash" { // the hash itself is not an effect
+					if se.Sel.Name != "ClaimHash" && !x.skip[se.Sel.Name] { // the hash itself is not an effect
 						x.methodFields(t, se.Sel.Name, mseen, out)
 					}
 				}
@@ -625,7 +626,10 @@ func extractC11(c *Ctx) error {
 	if err := x.extractBatchGate(); err != nil {
 		return err
 	}
-	return x.extractKeySites()
+	if err := x.extractKeySites(); err != nil {
+		return err
+	}
+	return x.extractEffectReads(names, entryGeneric)
 }
 
 // rootIdent returns the identifier at the root of an lvalue / argument expression (x, x.f, *x, &x, x[i], (x)).
